@@ -7,6 +7,7 @@ from vsa.facts import Facts, unwrap, show, walk, lit_value
 from vsa.front import AnalysisBroken
 from vsa.alg import Fold, S, F as Fn, equal, is_zero, guard_strs
 from vsa.cfg import CFG
+from vsa.cases import decide, resolve_ite
 from rules.C08 import stream_items
 
 LEVEL = "other"
@@ -156,8 +157,18 @@ def run(rep, tier):
         rec2(c_)
     if curv is not None and hasattr(curv, "free_symbols"):
         ats2 |= curv.free_symbols
-    st_s = [x for x in ats2 if str(x).endswith("stride_")]
-    en_s = [x for x in ats2 if str(x).endswith("end_")]
+    from sympy.core.function import AppliedUndef as _AU
+    fats = set()
+    for c_ in list(conds2.values()) + [g_[0] for e in fi.events for g_ in e["guards"]] + ([curv] if curv is not None else []):
+        def rec3(c):
+            if isinstance(c, tuple):
+                for x in c:
+                    rec3(x)
+            elif hasattr(c, "atoms"):
+                fats.update(a_ for a_ in c.atoms(_AU) if str(a_.func).endswith(("stride_", "end_")))
+        rec3(c_)
+    st_s = [x for x in ats2 if str(x).endswith("stride_")] + [x for x in fats if str(x.func).endswith("stride_")]
+    en_s = [x for x in ats2 if str(x).endswith("end_")] + [x for x in fats if str(x.func).endswith("end_")]
     if curv is None or len(st_s) != 1 or len(en_s) != 1 or len(blk) != 1:
         raise AnalysisBroken("operator++: current_/stride_/end_/block advance not found (stride %s, end %s, block stores %d)" % (st_s, en_s, len(blk)))
     for cur_, s_, e_, leaves in ((1, 1, 3, False), (2, 1, 3, False), (3, 1, 3, True), (3, -1, 1, False), (2, -1, 1, False), (1, -1, 1, True), (1, 2, 2, True), (1, 2, 3, False),
@@ -235,14 +246,70 @@ def run(rep, tier):
     uses = [n for n in cis.walk() if n.get("k") == "ref" and n.get("name") == "indeces"]
     ok = ok and len(uses) == 2
     rep.check(ok, "R18.4", "string-normalised", "string built from the sorted unique copy only", "IndexParser::CreateIndexString uses the raw input after/without normalising it through std::set", cis.loc(), sample=True)
-    d1 = [n for n in cis.walk() if n.get("k") == "binop" and n["op"] == "==" and "difference[" in show(n["lhs"])]
-    rep.check(len(d1) == 1 and nows(show(d1[0])) == "(difference[(i+1)]==1)", "R18.4", "run-condition", "a run continues only while the next difference is 1",
-              "CreateIndexString run condition is %s" % (show(d1[0]) if d1 else "?"), cis.loc())
+    # one iteration of the printing loop, decided for the four cases (next value continues the run?) x (a run is open?)
     fo3 = Fold(cis, opaque_types=r"std::vector<|std::set<").run()
-    adds = [str(e["value"]) for e in fo3.events if e["kind"] == "store" and e["target"] == "result"] if False else []
-    txt = [nows(show(n)) for n in cis.walk() if n.get("k") == "opcall" and n.get("op") == "+=" and show(n["args"][0]) == "result"]
-    okf = any('to_string(startindex)' in t and '":"' in t and 'to_string(sorted_unique[i])' in t for t in txt) and any(t.count("to_string") == 1 and "sorted_unique[i]" in t for t in txt)
-    rep.check(okf, "R18.4", "run-format", "runs printed as first:last, singles as the value", "CreateIndexString output pieces are %s" % txt, cis.loc())
+    lp = [l for l in getattr(fo3, "loops", []) if l.get("step") and any(isinstance(v, tuple) and v and v[0] in ("cat", "ite") for v in l["step"].values())]
+    okf, why = False, "the loop that prints the runs was not recognised"
+    if len(lp) == 1:
+        l = lp[0]
+        names = {k_: fo3.keyname(k_) for k_ in l["step"]}
+        resk = [k_ for k_ in l["step"] if "basic_string" in ((cis.decls.get(k_) or {}).get("type") or "")]
+        boolk = [k_ for k_ in l["step"] if (cis.decls.get(k_) or {}).get("type") in ("bool",)]
+        idxk = [k_ for k_ in l["step"] if sp.simplify((l["step"][k_] if not isinstance(l["step"][k_], tuple) else sp.Integer(0)) - l["syms"][k_]) == 1]
+        startk = [k_ for k_ in l["step"] if k_ not in resk + boolk + idxk]
+        if len(resk) == 1 and len(boolk) == 1 and len(idxk) == 1 and len(startk) == 1:
+            rs, bs, is_, ss = l["syms"][resk[0]], l["syms"][boolk[0]], l["syms"][idxk[0]], l["syms"][startk[0]]
+            cur = Fn("at")(S("sorted_unique"), is_)
+            conds3 = getattr(fo3, "conds", {})
+
+            def orc(lf):
+                if isinstance(lf, tuple) and len(lf) == 3 and lf[0] in ("==", "!=") and 1 in (lf[1], lf[2]):
+                    other = lf[1] if lf[2] == 1 else lf[2]
+                    if str(getattr(other, "func", "")) == "at" and "difference" in str(other.args[0]) and sp.simplify(other.args[1] - is_ - 1) == 0:
+                        return ("RUN", lf[0] == "==")
+                if lf == bs:
+                    return ("OPEN", True)
+                return None
+
+            def res(v, atoms):
+                if isinstance(v, tuple) and v and v[0] == "ite":
+                    t = decide(v[1], None, atoms, orc, conds3)
+                    return None if t is None else res(v[2] if t else v[3], atoms)
+                if isinstance(v, tuple) and v and v[0] == "cat":
+                    parts = []
+                    for x in v[1:]:
+                        r_ = res(x, atoms)
+                        if r_ is None:
+                            return None
+                        parts += list(r_[1:]) if isinstance(r_, tuple) and r_ and r_[0] == "cat" else [r_]
+                    return ("cat",) + tuple(parts)
+                if hasattr(v, "args") and not isinstance(v, tuple):
+                    v = resolve_ite(v, lambda cs: decide(conds3[cs], None, atoms, orc, conds3) if cs in conds3 else None)
+                return v
+            ts = lambda x: Fn("to_string")(x)
+            okf, why = True, ""
+            for run, opn in ((True, False), (True, True), (False, True), (False, False)):
+                atoms = {"RUN": run, "OPEN": opn}
+                rv, bv, sv = res(l["step"][resk[0]], atoms), res(l["step"][boolk[0]], atoms), res(l["step"][startk[0]], atoms)
+                if rv is None or bv is None or sv is None:
+                    okf, why = False, "one iteration is undecided for run-continues=%s, run-open=%s" % (run, opn)
+                    break
+                pieces = tuple(rv[1:]) if isinstance(rv, tuple) and rv and rv[0] == "cat" else (rv,)
+                pieces = tuple(str(x) for x in pieces)
+                if run:
+                    want_p, want_b, want_s = (str(rs),), True, (ss if opn else cur)
+                elif opn:
+                    want_p, want_b, want_s = (str(rs), str(ts(ss)), '":"', str(ts(cur)), '" "'), False, ss
+                else:
+                    want_p, want_b, want_s = (str(rs), str(ts(cur)), '" "'), False, ss
+                bval = True if bv is sp.true else (False if bv is sp.false else (opn if bv == bs else None))
+                if pieces != want_p or bval != want_b or (run and sv != want_s):
+                    okf, why = False, "for run-continues=%s, run-open=%s the string becomes %s (required %s), the run stays open: %s (required %s), run start %s" % (
+                        run, opn, pieces, want_p, bv, want_b, sv)
+                    break
+    rep.check(okf, "R18.4", "run-format", "runs printed as first:last, singles as the value; a run opens at its first and closes at its last member",
+              "IndexParser::CreateIndexString: " + why, cis.loc(), sample=True)
+    rep.check(okf, "R18.4", "run-condition", "a run continues only while the next difference is 1", "CreateIndexString: " + why, cis.loc())
 
     # ---------------------------------------------------------------- R18.5
     BL = "votca::csg::BeadList::"
